@@ -137,6 +137,29 @@ CLAIMED = {
    note="Trusted: Lean kernel; interpreter/parser models as sampled by the `eval` stream. No law is stated for function-call nodes themselves (their arguments are covered as sub-trees).",
    design="DESIGN.md §7 C11",
    technique="Lean 4 theorems (big-step compositional characterisations, offset irrelevance) + implementation-only recombination oracle"),
+ "C08": dict(
+   text="Machine-checked theorems (Lean 4). Repository code: the identity query returns the document; conversion to and from serde_json::Value is "
+        "lossless on library values. JSON text layer (serde_json's, modelled): parsing the compact or pretty printed text of a value yields "
+        "the value, for every nesting below the parser's limit, every string (all code points, escapes), every integer in the u64 / negative "
+        "i64 range — 4 lemma files, induction over values with fuel/depth invariants — under one stated hypothesis about doubles "
+        "(FloatRoundTrips: parse(print f) = f), which is known to fail by <= 1 ulp for some doubles with serde_json's default parser; an "
+        "unconditional float-free corollary is proved. The `json` stream runs random JSON texts (escapes, surrogate pairs, duplicate keys, "
+        "integers across/beyond i64/u64, decimals inside/outside the exact domain, deep nesting, malformed texts) through from_json, `@`, "
+        "to_string, re-parse and Value conversions, judged by an independent Python oracle (exact for <= 15 digits & |exp| <= 22, 2 ulp otherwise).",
+   note="PARTIAL for the text layer: decimal<->double algorithms are serde_json's — modelled and validated by the stream, not verified; the float "
+        "round trip is a hypothesis in the theorem and a measured <= 2 ulp bound in the check.",
+   design="DESIGN.md §7 C08",
+   technique="Lean 4 theorems (parse . print = id over a model of serde_json; Value round trip) + json correspondence stream with an exact-arithmetic oracle"),
+ "C09": dict(
+   text="Machine-checked theorems (Lean 4) over the lexer model: for every string without an odd backslash run before a quote or at its end, the "
+        "raw-string spelling lexes and evaluates to exactly that string, and for every other string it does not (the guard is exact: only "
+        "backslash-quote is an escape); for every member name — any Unicode string — its JSON-string spelling lexes to the quoted identifier "
+        "of that name and selects exactly that member; for every JSON value, the backtick literal of its JSON text (backticks escaped) lexes "
+        "and evaluates to the value (printed JSON is proved backtick-safe; assumes the text parses back, C08). The `eval` stream spells "
+        "delimiter-dense strings and values in the checker, evaluates them with the code and compares; malformed quoted forms must be rejected.",
+   note="Trusted: Lean kernel; lexer/JSON-text models as sampled; Spec/Spelling.lean as the meaning of 'the spelling of'; doubles inside literals inherit C08's float caveat.",
+   design="DESIGN.md §7 C09",
+   technique="Lean 4 round-trip theorems over the lexer model + correspondence stream with checker-side spelling"),
 }
 
 NOT_YET = "check not built yet in this session (work in progress; see DESIGN.md §10 for the order of work)"
